@@ -245,7 +245,10 @@ class History:
             from model.stores import FileDisk
 
             self.scratch = tempfile.mkdtemp(prefix="verif-files-", dir="/dev/shm" if os.path.isdir("/dev/shm") else None)
-            self.disk = FileDisk(self.scratch, desc["file_stores"], touch=desc.get("touch_stores", ()),
+            # (a minimised description may name stores whose nodes were dropped: only stores some node owns are files)
+            owned = {n.get("store") for n in self.world["nodes"] if n["kind"] != "src"}
+            self.disk = FileDisk(self.scratch, [s for s in desc["file_stores"] if s in owned],
+                                 touch=desc.get("touch_stores", ()),
                                  siblings=bool(desc.get("file_siblings")), symlinks=desc.get("file_symlinks", ()),
                                  loops=desc.get("file_symlink_loops", ()))
         else:
